@@ -324,3 +324,9 @@ def run(f, fixture, rep, cfg, tier):
     # then still succeed, i.e. it may fail only where a recorded digest was compared and differed
     rep.rule("R7", "digest verification after sign / clear is decided by comparisons only (C03.R1-R4)")
     rep.include("c03", f, fixture, cfg, tier, "R7", "digest verification", only_rules={"R1", "R2", "R3", "R4"}, floor=20)
+
+    # ---- R8 "write / re-parse" steps of a history: rest on the reader's chunk independence and on the signature padding -----------
+    # (C14.R5: the parse cone reads with read_exact / read_to_end only; C01.R6: reader, writer and offsets share one padding function)
+    rep.rule("R8", "re-parsing what was written does not depend on how the source chunks its reads (C14.R5, C01.R6)")
+    rep.include("c14", f, fixture, cfg, tier, "R8", "parse cone reads", only_rules={"R5"}, floor=3)
+    rep.include("c01", f, fixture, cfg, tier, "R8", "signature padding", only_rules={"R6"}, floor=3)
